@@ -151,10 +151,53 @@ func stubSprintf(p *path, _ *frame, args []value) value {
 	if len(args) > 1 {
 		list, _ = args[1].([]value)
 	}
-	for _, a := range list {
+	// %T verbs: interpreter values have no Go reflect type; print the static dynamic type instead
+	tVerbs := map[int]bool{}
+	if strings.Contains(format, "%T") {
+		if strings.Contains(format, "%[") {
+			p.unsupported("fmt: %T together with explicit argument indexes")
+		}
+		var nf strings.Builder
+		argi := 0
+		for i := 0; i < len(format); i++ {
+			if format[i] != '%' {
+				nf.WriteByte(format[i])
+				continue
+			}
+			j := i + 1
+			for j < len(format) && strings.IndexByte("+-# 0123456789.", format[j]) >= 0 {
+				j++
+			}
+			if j >= len(format) {
+				nf.WriteString(format[i:])
+				break
+			}
+			if format[j] == '%' {
+				nf.WriteString(format[i : j+1])
+			} else if format[j] == 'T' {
+				nf.WriteString("%s")
+				tVerbs[argi] = true
+				argi++
+			} else {
+				nf.WriteString(format[i : j+1])
+				argi++
+			}
+			i = j
+		}
+		format = nf.String()
+	}
+	for k, a := range list {
 		ai, ok := a.(iface)
 		if !ok {
 			p.unsupported(fmt.Sprintf("Sprintf argument %T", a))
+		}
+		if tVerbs[k] {
+			if ai.t == nil {
+				hargs = append(hargs, "<nil>")
+			} else {
+				hargs = append(hargs, types.TypeString(ai.t, func(pk *types.Package) string { return pk.Name() }))
+			}
+			continue
 		}
 		hargs = append(hargs, p.toAny(ai, quote))
 	}
